@@ -67,11 +67,31 @@ def rel_eq(a, b, scale):
     return abs(a - b) <= 1e-9 * max(1.0, scale)
 
 
-def case_grid(mon: Monitor, rng: random.Random) -> None:
+def case_siblings(mon: Monitor, rng: random.Random) -> None:
+    """Near-identical grids used one after the other in the same process: they differ in the sign of one resolution component, a flip flag, the CRS or the origin only.
+    Each is judged exactly like a grid used alone (whatever the library remembers about one grid must not show in its sibling)."""
+    spec, origin, crs = make_spec(rng)
+    shape, (rx, ry), o, fx, fy = spec
+    other_crs = "EPSG:3577" if crs != "EPSG:3577" else "EPSG:3857"
+    sibs = [(spec, origin, crs), ((shape, (-rx, ry), o, fx, fy), origin, crs), ((shape, (rx, -ry), o, fx, fy), origin, crs), ((shape, (-rx, -ry), o, fx, fy), origin, crs),
+            ((shape, (rx, ry), o, not fx, fy), origin, crs), ((shape, (rx, ry), o, fx, not fy), origin, crs), (spec, origin, other_crs), (spec, origin, crs)]
+    if origin is not None:
+        o2 = (o[0] + shape[1] * abs(rx), o[1])
+        sibs.insert(3, ((shape, (rx, ry), o2, fx, fy), o2, crs))
+    rs = rng.getrandbits(48)
+    rng.shuffle(sibs)
+    for sp in sibs:
+        case_grid(mon, random.Random(rs), given=sp)  # same random probes for every sibling
+        mon.obs["sibling_grids"] += 1
+
+
+def case_grid(mon: Monitor, rng: random.Random, given=None) -> None:
     from odc.geo.geom import BoundingBox
     from odc.geo.gridspec import GridSpec
 
     spec, origin, crs = make_spec(rng)
+    if given is not None:
+        spec, origin, crs = given
     (ny, nx), (rx, ry), (ox, oy), fx, fy = spec
     tw, th = nx * abs(rx), ny * abs(ry)
     desc = {"tile_shape": [ny, nx], "resolution": [rx, ry], "origin": [ox, oy], "flipx": fx, "flipy": fy, "crs": crs}
@@ -345,12 +365,12 @@ def case_web(mon: Monitor, rng: random.Random) -> None:
               key="web-tiles", cls=f"z{z:02d}", sig=hsig("W", z, npix), sample={"z": z, "npix": npix, "tile(0,0)": tuple(gs[0, 0].boundingbox.bbox)})
 
 
-CASES = {"grid": case_grid, "polygon": case_polygon, "web": case_web}
+CASES = {"grid": case_grid, "siblings": case_siblings, "polygon": case_polygon, "web": case_web}
 
 
 def run(mon: Monitor, tier: str, seed: int, shard: int, nshards: int) -> None:
     rng = random.Random(seed * 1000 + shard + 14)
-    counts = {"grid": 350, "polygon": 500, "web": 120} if tier == "quick" else {"grid": 5000, "polygon": 8000, "web": 600}
+    counts = {"grid": 300, "siblings": 12, "polygon": 500, "web": 120} if tier == "quick" else {"grid": 5000, "siblings": 200, "polygon": 8000, "web": 600}
     for kind, n in counts.items():
         for _ in range(n):
             rs = rng.getrandbits(48)
